@@ -16,6 +16,9 @@ type normer struct{ sb strings.Builder }
 
 func normExpr(e ast.Expr) string { n := &normer{}; n.expr(e); return n.sb.String() }
 
+// Expr returns the canonical form of an expression (parentheses dropped, literals by value).
+func Expr(e ast.Expr) string { return normExpr(e) }
+
 func (n *normer) w(s string, a ...interface{}) { fmt.Fprintf(&n.sb, s, a...) }
 
 func (n *normer) exprs(es []ast.Expr) {
